@@ -1,5 +1,6 @@
 import Lean.Data.Json
 import UcantoModel.Model.Cbor
+import UcantoModel.Model.Wire
 /-! # reading the harness's JSON form of an IPLD value into `Cbor.CVal` (driver glue, not verified) -/
 namespace CborJson
 open Lean Cbor
@@ -42,3 +43,103 @@ partial def parse (j : Json) : Except String CVal :=
   | _ => .error "value"
 
 end CborJson
+
+namespace WireJson
+open Lean Cbor Wire
+
+def hexField (j : Json) (key : String) : Except String Bytes :=
+  match j.getObjVal? key with
+  | .ok (.str h) => (Bytes.ofHex h).elim (.error s!"hex {key}") .ok
+  | _ => .error s!"missing {key}"
+
+def optHex (j : Json) (key : String) : Except String (Option Bytes) :=
+  match j.getObjVal? key with
+  | .ok (.str h) => (Bytes.ofHex h).elim (.error s!"hex {key}") (fun b => .ok (some b))
+  | _ => .ok none
+
+def optInt (j : Json) (key : String) : Except String (Option Int) :=
+  match j.getObjVal? key with
+  | .ok (.str s) => match s.toInt? with
+    | some i => .ok (some i)
+    | none => .error s!"int {key}"
+  | _ => .ok none
+
+def hexList (j : Json) : Except String (List Bytes) :=
+  match j with
+  | .arr xs => xs.toList.mapM fun x => match x with
+    | .str h => (Bytes.ofHex h).elim (.error "hex") .ok
+    | _ => .error "hex list"
+  | _ => .error "list"
+
+def optHexList (j : Json) (key : String) : Except String (Option (List Bytes)) :=
+  match j.getObjVal? key with
+  | .ok v => (hexList v).map some
+  | .error _ => .ok none
+
+def entries (j : Json) : Except String (List (Bytes × CVal)) :=
+  match j with
+  | .arr xs => xs.toList.mapM fun e => match e with
+    | .arr #[.str kk, v] => do
+      let kb ← (Bytes.ofHex kk).elim (.error "hex") .ok
+      let vv ← CborJson.parse v
+      pure (kb, vv)
+    | _ => .error "entry"
+  | _ => .error "entries"
+
+def parseToken (j : Json) : Except String Token := do
+  let v ← hexField j "v"
+  let iss ← hexField j "iss"
+  let aud ← hexField j "aud"
+  let s ← hexField j "s"
+  let att ← match j.getObjVal? "att" with
+    | .ok (.arr xs) => xs.toList.mapM fun c => do
+      let w ← hexField c "with"
+      let cn ← hexField c "can"
+      let nb ← (c.getObjVal? "nb") >>= CborJson.parse
+      pure (⟨w, cn, nb⟩ : Cap)
+    | _ => .error "att"
+  let prf ← optHexList j "prf"
+  let exp ← optInt j "exp"
+  let fct ← match j.getObjVal? "fct" with
+    | .ok (.arr xs) => (xs.toList.mapM entries).map some
+    | _ => .ok none
+  let nnc ← optHex j "nnc"
+  let nbf ← optInt j "nbf"
+  pure { v, iss, aud, s, att, prf, exp, fct, nnc, nbf }
+
+def parseRcpt (j : Json) : Except String Rcpt := do
+  let ran ← hexField j "ran"
+  let okSide ← match j.getObjVal? "ok" with | .ok (.bool b) => .ok b | _ => .error "ok"
+  let value ← (j.getObjVal? "value") >>= CborJson.parse
+  let fork ← (j.getObjVal? "fork") >>= hexList
+  let join ← optHex j "join"
+  let metadata ← (j.getObjVal? "meta") >>= entries
+  let iss ← optHex j "iss"
+  let prf ← (j.getObjVal? "prf") >>= hexList
+  let sig ← hexField j "sig"
+  pure { ran, okSide, value, fork, join, metadata, iss, prf, sig }
+
+def parseMsg (j : Json) : Except String Msg := do
+  let execute ← optHexList j "execute"
+  let report ← match j.getObjVal? "report" with
+    | .ok (.arr xs) => (xs.toList.mapM fun (e : Json) => match e with
+        | Json.arr #[Json.str a, Json.str b] => do
+          let ka ← (Bytes.ofHex a).elim (Except.error "hex") Except.ok
+          let kb ← (Bytes.ofHex b).elim (Except.error "hex") Except.ok
+          pure (ka, kb)
+        | _ => (Except.error "report entry" : Except String (Bytes × Bytes))).map some
+    | _ => .ok none
+  pure { execute, report }
+
+/-- model bytes (hex) of one item `{kind, fields, root}` -/
+def itemBytes (j : Json) : Except String String := do
+  let kind ← j.getObjValAs? String "kind"
+  let f ← j.getObjVal? "fields"
+  match kind with
+  | "token" => (parseToken f).map fun t => Bytes.toHex (tokenBytes t)
+  | "receipt" => (parseRcpt f).map fun r => Bytes.toHex (receiptBytes r)
+  | "message" => (parseMsg f).map fun m => Bytes.toHex (messageBytes m)
+  | "archive" => (hexField f "root").map fun r => Bytes.toHex (archiveBytes r)
+  | k => .error s!"kind {k}"
+
+end WireJson
